@@ -46,7 +46,8 @@ Step(o) ==
                 THEN Insert(impl, o.name, o.kind, id) ELSE impl
 
 ReAdd == {O("readd", n, "", m) : n \in DOMAIN s.ns, m \in {"set", "add"}}
-Next == Len(hist) < Depth /\ \E o \in Ops \cup ReAdd : Step(o)
+Alias == UNION {{O("alias", n, "", src) : src \in (DOMAIN s.ns) \ {n}} : n \in Names}
+Next == Len(hist) < Depth /\ \E o \in Ops \cup ReAdd \cup Alias : Step(o)
 Spec == Init /\ [][Next]_vars
 
 Emit == IF Len(hist') = Depth THEN PrintT(<<"CASE", ToJson(hist')>>) ELSE TRUE
